@@ -326,16 +326,24 @@ def Code.imulCode (a f : Code) : Except Err Code :=
   let dd ← doubleDecoding a.dec f.dec
   pure ⟨matMul f.enc a.enc a.nm, dd, f.nq, a.nm⟩
 
+/-- `scipy.sparse.kron(scipy.sparse.identity(n), A)` for a matrix `A` with `an` columns: `n`
+diagonal blocks (and the number of columns) -/
+def kronEye (n : Nat) (A : Mat) (an : Nat) : Mat × Nat :=
+  (List.range n).foldl (fun (acc : Mat × Nat) _ => (blockDiag acc.1 acc.2 A an, acc.2 + an)) (([] : Mat), 0)
+
+/-- the loop `for index in numpy.arange(1, factor): self.decoder = numpy.append(self.decoder,
+shift_decoder(tmp_decoder, index * self.n_qubits))` with `m = factor - 1` iterations -/
+def repeatDecoder (d : List DEntry) (nq m : Nat) : Except Err (List DEntry) :=
+  (List.range m).foldlM (fun acc i => do
+    let sd ← shiftDecoder d ((i + 1) * nq)
+    pure (acc ++ sd)) d
+
 /-- `__imul__` with an integer (appending the code to itself) -/
 def Code.imulInt (a : Code) (k : Int) : Except Err Code :=
   if k < 1 then .error .valueError else do
   let n := k.toNat
-  let enc := (List.range n).foldl (fun (acc : Mat × Nat) _ =>
-      (blockDiag acc.1 acc.2 a.enc a.nm, acc.2 + a.nm)) (([] : Mat), 0)
-  let dec ← (List.range (n - 1)).foldlM (fun acc i => do
-      let sd ← shiftDecoder a.dec ((i + 1) * a.nq)
-      pure (acc ++ sd)) a.dec
-  pure ⟨enc.1, dec, a.nq * n, a.nm * n⟩
+  let dec ← repeatDecoder a.dec a.nq (n - 1)
+  pure ⟨(kronEye n a.enc a.nm).1, dec, a.nq * n, a.nm * n⟩
 
 /-! ## binary_codes.py -/
 
@@ -425,11 +433,15 @@ def checksumCode (modes : Nat) (odd : Bool) : Except Err Code := do
 def addressBits (digits address : Nat) : List Nat :=
   (List.range digits).map fun i => if address.testBit (digits - 1 - i) then 1 else 0
 
-/-- `_binary_address(digits, address)`: the decoder component -/
+/-- one factor of `_binary_address`: `BinaryPolynomial('w{index} + 1 + {address[index]}')` -/
+def addressFactor (digits address index : Nat) : Except Err Poly :=
+  ofString [[Tok.var index], [Tok.const 1], [Tok.const (if address.testBit (digits - 1 - index) then 1 else 0)]]
+
+/-- `_binary_address(digits, address)`: the decoder component (the loop over `index`) -/
 def binaryAddress (digits address : Nat) : Except Err Poly := do
   let one ← ofString [[Tok.const 1]]
-  ((addressBits digits address).zipIdx).foldlM (fun acc (b, i) => do
-    let f ← ofString [[Tok.var i], [Tok.const 1], [Tok.const b]]
+  (List.range digits).foldlM (fun acc i => do
+    let f ← addressFactor digits address i
     pure (imul acc f)) one
 
 def transpose (w : Nat) (M : Mat) : Mat :=
@@ -493,26 +505,38 @@ def zOp (v : Nat) (c : GQ) : Op := [([(v, 3)], c)]
 section bct
 variable (tol : Rat)
 
+/-- one iteration of the loop of `dissolve`: `prod *= QubitOperator((), 0.5) - QubitOperator('Z{var}', 0.5)` -/
+def dissolveStep (acc : QV) (f : Fac) : Except Err QV :=
+  match f with
+  | none => .error Err.valueError
+  | some v => .ok (acc.mul (.op (isub tol [([], half)] (zOp v half))))
+
+/-- the last line of `dissolve`: `QubitOperator((), 1.0) - prod` -/
+def dissolveFinish (prod : QV) : Op :=
+  match prod with
+  | .num c => addConst [([], 1)] (-c)
+  | .op o => isub tol [([], 1)] o
+
 /-- `dissolve(term)` -/
 def dissolve (term : Mono) : Except Err Op := do
-  let prod ← term.foldlM (fun (acc : QV) f =>
-    match f with
-    | none => .error Err.valueError
-    | some v => .ok (acc.mul (.op (isub tol [([], half)] (zOp v half))))) (QV.num ⟨2, 0⟩)
-  match prod with
-  | .num c => pure (addConst [([], 1)] (-c))
-  | .op o => pure (isub tol [([], 1)] o)
+  let prod ← term.foldlM (dissolveStep tol) (QV.num ⟨2, 0⟩)
+  pure (dissolveFinish tol prod)
+
+/-- the multiplier `extractor` computes for one term of the polynomial -/
+def extractorTerm (term : Mono) : Except Err QV :=
+  match term with
+  | [some v] => pure (QV.op (zOp v 1))
+  | [none] => pure (QV.num (-1))
+  | [] => pure (QV.num 1)
+  | _ => do pure (QV.op (← dissolve tol term))
+
+/-- one iteration of the loop of `extractor`: `return_fn *= multiplier` -/
+def extractorStep (acc : QV) (term : Mono) : Except Err QV := do
+  let m ← extractorTerm tol term
+  pure (acc.mul m)
 
 /-- `extractor(binary_op)` -/
-def extractor (p : Poly) : Except Err QV :=
-  p.foldlM (fun (acc : QV) term => do
-    let m : QV ←
-      match term with
-      | [some v] => pure (QV.op (zOp v 1))
-      | [none] => pure (QV.num (-1))
-      | [] => pure (QV.num 1)
-      | _ => do pure (QV.op (← dissolve tol term))
-    pure (acc.mul m)) (QV.num 1)
+def extractor (p : Poly) : Except Err QV := p.foldlM (extractorStep tol) (QV.num 1)
 
 /-- `make_parity_list(code)` -/
 def makeParityList (c : Code) : List Poly :=
